@@ -6,12 +6,28 @@
   births and moves, the collector's registry and sweep).  Source-derived tables: CelloGen/Hdr.lean.
   Lemmas: CelloProofs/Lemmas/Hdr.lean (invariant `WF`), HdrBody.lean (element headers), HdrRelease.lean (the collector's
   release paths: `finalise_spec`, `gcRem_spec`, `sweepLoop_spec`, `collect_spec` — nested deletions, rings, every pending
-  order), HdrStep.lean (`wf_run`), HdrKeep.lean (`stable_run`: headers never change, non-heap objects are never released).
+  order), HdrStep.lean (`wf_run`), HdrKeep.lean (`stable_run`: headers never change, non-heap objects are never released),
+  HdrRefuse.lean (a refused release returns the very same state; skipped operations are no-ops; `delrawTerritory`).
+
+  **What "all histories" means here.**  A history is any list of `Op`s.  Some calls are *left out*: the model's `step`
+  answers `Obs.skip why`, the harness prints `skip why`, and the state is returned unchanged (`C19_skipped_ops_change_nothing`),
+  so a history containing such a call is the history without it.  `Skipped` is the predicate; the reasons are
+  * `misuse` / `referenced` — freeing calls that are double frees by construction or belong to another property's known
+    finding: listed exactly by `St.freeSkip` (Cello/Hdr.lean) — a raw release of a collector-managed object, `destruct` of
+    a heap object, the release of a run-time Type in use, the release of a heap object that a live Tuple still points to.
+    No freeing call on a stack, static or embedded object is ever left out (`C19_nonheap_release_never_skipped`);
+  * `unsupported` — a constructor, `copy`, in-place operation, iteration or view whose operand types are outside the
+    universe of the model (`buildBody`, `copyBody`, `inPlaceObj`, `inPlaceElem`, `iterate`, `viewItems` return `none`):
+    element types other than Int / String / Tuple / Array-of-Int / run-time structs, key types other than Int / String,
+    Tuples of more than six items or holding Boxes, Boxes that are static or own Type objects, `alloc`-routes of types
+    whose zeroed body is not a valid object;
+  * `dead` / `self` / `duplicate` — an operation on a released handle, with the target among its own arguments, or a second
+    handle for the same static Type object.
 
   Every model theorem is proved for all configurations that are `Sound`; `C19_current_source_sound` decides that the
   configuration read from the source that is in /repo now is `Sound`, and the `…_current` corollaries instantiate it.
 -/
-import CelloProofs.Lemmas.HdrGuard
+import CelloProofs.Lemmas.HdrRefuse
 
 namespace Cello.Hdr
 
@@ -76,15 +92,76 @@ theorem C19_typeof_and_dealloc_shape :
        .classCheck CelloGen.Hdr.allocStack "ResourceError", .classCheck CelloGen.Hdr.allocData "ResourceError", .fill, .free] ∧
     CelloGen.Hdr.headerFields = ["type", "alloc", "magic"] := by decide
 
+/-- is this assignment to a slot-size field computed from the size of the *matching* declared type, with the rounding the
+    model uses for that container? -/
+def slotSiteOK (p : String × String × String × String × Bool) : Bool :=
+  ((p.2.2.1 == "tsize" && p.2.2.2.1 == "type") || (p.2.2.1 == "ksize" && p.2.2.2.1 == "ktype") ||
+   (p.2.2.1 == "vsize" && p.2.2.2.1 == "vtype")) &&
+  p.2.2.2.2 == (if p.1 == "Array" then Config.current.roundArray else if p.1 == "List" then Config.current.roundList
+                else if p.1 == "Table" then Config.current.roundTable else Config.current.roundTree)
+
+/-- **`size(type)` bytes are usable — the source side**: `alloc_by` reserves `sizeof(struct Header) + size(type)`; every
+    assignment to `tsize` / `ksize` / `vsize` in Array.c, List.c, Table.c and Tree.c (constructor and `assign`, whatever the
+    translator finds — not a fixed list) computes the slot size as `size` of the field's *own* declared type (`tsize` from
+    `type`, `ksize` from `ktype`, `vsize` from `vtype`), rounded up or not as the model's `slotCap` does for that container;
+    and each of the eight (container, field) pairs is set by both `_New` and `_Assign`.  A value slot sized by the key type
+    (or the reverse), a dropped rounding or a new place that sets a slot size breaks this theorem. -/
+theorem C19_slot_sizes_follow_declared_types :
+    CelloGen.Hdr.allocByReservesSize = true ∧
+    (∀ p ∈ CelloGen.Hdr.slotSizeSites, slotSiteOK p = true) ∧
+    [("Array", "tsize"), ("List", "tsize"), ("Table", "ksize"), ("Table", "vsize"), ("Tree", "ksize"), ("Tree", "vsize")].all
+      (fun cf => ["_New", "_Assign"].all (fun fn =>
+        CelloGen.Hdr.slotSizeSites.any (fun p => p.1 == cf.1 && p.2.1 == cf.1 ++ fn && p.2.2.1 == cf.2))) = true := by
+  decide
+
 /-! ## B. every reachable state is well formed -/
 
+/-- **the operations a history leaves out**: the model answers `Obs.skip why` (and so does the harness) -/
+def Skipped (cfg : Config) (s : St) (op : Op) : Prop := ∃ why, (step cfg s op).2 = .skip why
+
+/-- **a skipped operation changes nothing**: the state after it is the state before it, so every theorem "for all
+    histories" below speaks about the history with the skipped calls removed. -/
+theorem C19_skipped_ops_change_nothing (cfg : Config) (s : St) (op : Op) (h : Skipped cfg s op) : (step cfg s op).1 = s := by
+  obtain ⟨why, hw⟩ := h
+  exact step_skip hw
+
+/-- **which freeing calls are skipped**: exactly those for which `St.freeSkip` gives a reason, and the reason is `misuse`
+    (raw release of a collector-managed object, `destruct` of a heap object, release of a run-time Type in use) or
+    `referenced` (a heap object that a live Tuple points to: KF-C01-dangling-tuple-item). -/
+theorem C19_free_skip_reasons (cfg : Config) (s : St) (f : FreeOp) (id : Nat) (o : Obj) (hget : s.get id = some o)
+    (hlive : o.live = true) :
+    (∀ why, (stepFree cfg s f (.obj id)).2 = .skip why ↔ s.freeSkip cfg f id o = some why) ∧
+    (∀ why, s.freeSkip cfg f id o = some why → why = "misuse" ∨ why = "referenced") := by
+  refine ⟨?_, fun why h => freeSkip_reasons h⟩
+  intro why
+  unfold stepFree
+  simp only [Target.id, hget, hlive, Bool.not_true, Bool.false_eq_true, if_false]
+  cases hk : s.freeSkip cfg f id o with
+  | none => simp
+  | some w => simp
+
+/-- **no freeing call on a stack, static or embedded-class object is ever skipped** (for all histories): whatever the
+    operation, it is executed and its outcome compared. (A run-time Type object in use is a heap object.) -/
+theorem C19_nonheap_release_never_skipped (cfg : Config) (hs : cfg.Sound = true) (ops : List Op) (id : Nat) (o : Obj)
+    (f : FreeOp) (hget : (run cfg St.init ops).get id = some o) (hnh : o.hdr.alloc ≠ cfg.cHeap)
+    (hty : (run cfg St.init ops).isTypeInUse id = false) :
+    (run cfg St.init ops).freeSkip cfg f id o = none :=
+  freeSkip_nonheap_none (facts_of_sound hs)
+    (wf_run (facts_of_sound hs) ops (wf_init cfg) (noPend_of_nil rfl)).1 f hget hnh hty
+
 /-- **Invariant, for all histories**: starting from the empty state, after any sequence of operations (births by every
-    route, copies, Boxes re-pointed at will — chains, rings, a Box that owns itself —, freeing operations on objects and on
-    embedded objects with whatever their destructors delete in turn, in-place operations, forced and threshold collector
-    runs with any set of victims in any pending order) every
-    element/key/value of every container carries the container's declared type, class `data` and the magic number;
+    route, copies, Boxes re-pointed at will — chains, rings, a Box that owns itself, Boxes on the stack —, freeing operations
+    on objects and on embedded objects with whatever their destructors delete in turn, in-place operations, forced and
+    threshold collector runs with any set of victims in any pending order) every
+    element/key/value of every container — Int, String, Tuple, Array and run-time struct elements — carries the container's
+    declared type, class `data` and the magic number;
     every registered handle is a live heap object; every released handle was a heap object and is dead; nothing was
-    released twice; handles are distinct. -/
+    released twice; handles are distinct.
+    "Any sequence" is literal: `ops` ranges over all lists of `Op`.  The calls that are `Skipped` (see the header of this
+    file: `misuse`, `referenced`, `unsupported`, `dead`, `self`, `duplicate`; the freeing ones are exactly `St.freeSkip`)
+    are no-ops of the model and are not executed by the harness either (`C19_skipped_ops_change_nothing`): for those
+    calls — double frees by construction, KF-C01-dangling-tuple-item, operand types outside the model's universe — nothing
+    is claimed. -/
 theorem C19_reachable_wf (cfg : Config) (hs : cfg.Sound = true) (ops : List Op) : WF cfg (run cfg St.init ops) :=
   (wf_run (facts_of_sound hs) ops (wf_init cfg) (noPend_of_nil rfl)).1
 
@@ -162,40 +239,71 @@ theorem C19_types_iteration (cfg : Config) (hs : cfg.Sound = true) (ops : List O
       simp [seenElem, (hb e he).2, typeOf, dataHdr]
     · cases hit
 
-/-- **C19_types (views)**: what a view hands out. `slice`, `reverse`, `filter` and `map` (identity) hand out objects of
-    the underlying iterable, so its guarantee carries over; `zip` and `enumerate` hand out their own Tuple, which is a
-    stack object; a Range hands out its own Int: the `$I(0)` of `range(...)` (stack) or the `new(Int)` of `new(Range, ...)`
-    (heap). -/
-theorem C19_types_views (cfg : Config) (hs : cfg.Sound = true) (s : St) (v : View) (l : List (Option Seen))
+/-- **C19_types (views), for all histories**: in every reachable state, forward iteration over `slice(x, k, _)`,
+    `reverse(x)`, `filter(x, f)` and `map(x, identity)` of an Array / List hands out only objects whose `type_of` is the
+    declared element type and whose class is `data`; over a Table / Tree only objects of the declared key type and class
+    `data`; over a Tuple only the Tuple's own items (each with the header it was born with: `C19_headers_never_change`).
+    (Composition of what the views select — `drop`, `reverse`, every second item, all — with `C19_reachable_wf`.) -/
+theorem C19_types_views (cfg : Config) (hs : cfg.Sound = true) (ops : List Op) (v : View) (id : Nat)
+    (hid : (∃ k, v = .slice id k) ∨ v = .reverse id ∨ v = .filter id ∨ v = .map id)
+    (l : List (Option Seen)) (hv : (run cfg St.init ops).viewItems cfg v = some l)
+    (o : Obj) (hget : (run cfg St.init ops).get id = some o) :
+    (∀ k ety es, o.body = .seq k ety es → ∀ x ∈ l, x = some (some ety, cfg.cData)) ∧
+    (∀ k kty vty ents, o.body = .map k kty vty ents → ∀ x ∈ l, x = some (some kty, cfg.cData)) ∧
+    (∀ items, o.body = .tuple items → ∀ x ∈ l, ∃ i ∈ items, x = (run cfg St.init ops).seenObj cfg i) := by
+  have hw := C19_reachable_wf cfg hs ops
+  generalize run cfg St.init ops = s at *
+  -- what the view hands out is part of what the underlying iterable hands out
+  have hsub : ∃ u, s.iterate cfg id = some u ∧ ∀ x ∈ l, x ∈ u := by
+    rcases hid with ⟨k, rfl⟩ | rfl | rfl | rfl
+    · simp only [St.viewItems] at hv
+      cases hi : s.iterate cfg id with
+      | none => simp [hi] at hv
+      | some u => simp only [hi, Option.map_some, Option.some.injEq] at hv; subst hv
+                  exact ⟨u, rfl, fun x hx => List.mem_of_mem_drop hx⟩
+    · simp only [St.viewItems] at hv
+      cases hi : s.iterate cfg id with
+      | none => simp [hi] at hv
+      | some u => simp only [hi, Option.map_some, Option.some.injEq] at hv; subst hv
+                  exact ⟨u, rfl, fun x hx => List.mem_reverse.mp hx⟩
+    · simp only [St.viewItems] at hv
+      cases hi : s.iterate cfg id with
+      | none => simp [hi] at hv
+      | some u => simp only [hi, Option.map_some, Option.some.injEq] at hv; subst hv
+                  exact ⟨u, rfl, everySecond_mem u⟩
+    · simp only [St.viewItems] at hv
+      exact ⟨l, hv, fun x hx => hx⟩
+  obtain ⟨u, hu, hlu⟩ := hsub
+  have hc := iterate_container hw id o u hget hu
+  refine ⟨fun k ety es hb x hx => hc.1 k ety es hb x (hlu x hx), fun k kty vty ents hb x hx => hc.2 k kty vty ents hb x (hlu x hx), ?_⟩
+  intro items hb x hx
+  have hx' := hlu x hx
+  unfold St.iterate at hu
+  rw [hget] at hu
+  simp only at hu
+  split at hu
+  · rw [hb] at hu
+    simp only at hu
+    split at hu
+    · simp only [Option.some.injEq] at hu; subst hu
+      obtain ⟨i, hi, rfl⟩ := List.mem_map.mp hx'
+      exact ⟨i, hi, rfl⟩
+    · cases hu
+  · cases hu
+
+/-- correspondence anchors, not property theorems — the model *defines* that `zip` and `enumerate` hand out their own stack
+    Tuple and a Range its own Int (`$I(0)` of `range(..)`: stack; `new(Int)` of `new(Range, ..)`: heap); the harness checks
+    `type_of` and the header class of every object those views hand out against these definitions (`view zip|enumerate|
+    range|hrange`), so what is established for them is agreement of model and library on the generated inputs. -/
+example (cfg : Config) (hs : cfg.Sound = true) (s : St) (v : View) (l : List (Option Seen))
     (hv : s.viewItems cfg v = some l) :
     match v with
-    | .slice id _ | .reverse id | .filter id | .map id => ∃ u, s.iterate cfg id = some u ∧ ∀ x ∈ l, x ∈ u
     | .zip _ _ | .enumerate _ => ∀ x ∈ l, x = some (some Ty.tuple, cfg.cStack)
     | .rangeStack _ _ _ => ∀ x ∈ l, x = some (some Ty.int, cfg.cStack)
-    | .rangeHeap _ _ _ => ∀ x ∈ l, x = some (some Ty.int, cfg.cHeap) := by
+    | .rangeHeap _ _ _ => ∀ x ∈ l, x = some (some Ty.int, cfg.cHeap)
+    | _ => True := by
   have F := facts_of_sound hs
   cases v with
-  | slice id k =>
-    simp only [St.viewItems] at hv
-    cases hi : s.iterate cfg id with
-    | none => simp [hi] at hv
-    | some u => simp only [hi, Option.map_some, Option.some.injEq] at hv; subst hv
-                exact ⟨u, hi, fun x hx => List.mem_of_mem_drop hx⟩
-  | reverse id =>
-    simp only [St.viewItems] at hv
-    cases hi : s.iterate cfg id with
-    | none => simp [hi] at hv
-    | some u => simp only [hi, Option.map_some, Option.some.injEq] at hv; subst hv
-                exact ⟨u, hi, fun x hx => List.mem_reverse.mp hx⟩
-  | filter id =>
-    simp only [St.viewItems] at hv
-    cases hi : s.iterate cfg id with
-    | none => simp [hi] at hv
-    | some u => simp only [hi, Option.map_some, Option.some.injEq] at hv; subst hv
-                exact ⟨u, hi, everySecond_mem u⟩
-  | map id =>
-    simp only [St.viewItems] at hv
-    exact ⟨l, hv, fun x hx => hx⟩
   | zip a b =>
     simp only [St.viewItems] at hv
     split at hv
@@ -214,6 +322,7 @@ theorem C19_types_views (cfg : Config) (hs : cfg.Sound = true) (s : St) (v : Vie
   | rangeHeap a b c =>
     simp only [St.viewItems, Option.some.injEq] at hv; subst hv
     intro x hx; rw [(List.mem_replicate.mp hx).2, F.bAllocBy]
+  | _ => trivial
 
 /-- the class each route must give -/
 def Route.cls (cfg : Config) : Route → Nat
@@ -300,11 +409,29 @@ theorem C19_static_type_objects (cfg : Config) (hs : cfg.Sound = true) (s s' : S
       · simp [typeOf, staticHeader]
       · simp [staticHeader, F.bStaticObj]
 
-/-- **`size(type)` bytes are usable**: every allocating route reserves at least `size(type)` bytes behind the header
-    (`Type_Alloc` reserves its whole table), `$`/static objects of the built-in types reserve `sizeof(struct T)`, and
-    every element, key and value slot of a container is at least `size` of its declared type (Array and Table round it up
-    to a multiple of 8). -/
-theorem C19_size_usable (cfg : Config) (s : St) :
+/-- **`size(type)` bytes are usable — the model side, tied to the source**: with the slot-size computations the translator
+    reads from the source now (`C19_slot_sizes_follow_declared_types`: every slot is sized from its own declared type;
+    `arrayRoundsSize` … `treeRoundsSize`), the bytes the model reserves are exactly: Array and Table slots
+    `size(type)` rounded up to a multiple of 8, List and Tree slots `size(type)`, `alloc_by` blocks `size(type)`,
+    `Type_Alloc` its whole table — in each case at least `size` of the type `type_of` reports for the object.  The harness
+    checks the same numbers on the library (`cap=` of every O line: `malloc_usable`-independent white-box slot sizes, and
+    writes `size(type_of(x))` bytes into every object it is handed under AddressSanitizer).
+    This ties definitions of the model to generated constants; the inequalities themselves are immediate (`slotCap_ge`). -/
+theorem C19_size_usable (s : St) :
+    (∀ ety v, (seqElem Config.current s .array ety v).cap = round8 (s.sizeOf ety) ∧
+              (seqElem Config.current s .list ety v).cap = s.sizeOf ety) ∧
+    (∀ kty vty a b, (mapEntry Config.current s .table kty vty a b).1.cap = round8 (s.sizeOf kty) ∧
+                    (mapEntry Config.current s .table kty vty a b).2.cap = round8 (s.sizeOf vty) ∧
+                    (mapEntry Config.current s .tree kty vty a b).1.cap = s.sizeOf kty ∧
+                    (mapEntry Config.current s .tree kty vty a b).2.cap = s.sizeOf vty) ∧
+    (∀ r ty, r.isHeap = true → ty ≠ .type → (birthHeader Config.current s r ty).2 = s.sizeOf ty) ∧
+    (∀ n, n ≤ round8 n) := by
+  refine ⟨fun ety v => ⟨rfl, rfl⟩, fun kty vty a b => ⟨rfl, rfl, rfl, rfl⟩, ?_, round8_ge⟩
+  intro r ty hr hty
+  cases r <;> simp [Route.isHeap] at hr <;> simp [birthHeader, hty]
+
+/-- correspondence anchor (definitional): for every configuration the reserved bytes are at least `size(type)` -/
+example (cfg : Config) (s : St) :
     (∀ r ty, r.isHeap = true → s.sizeOf ty ≤ (birthHeader cfg s r ty).2) ∧
     (∀ r ty, r.isHeap = false → (∀ k, ty ≠ .rt k) → s.sizeOf ty = (birthHeader cfg s r ty).2) ∧
     (∀ k ety v, s.sizeOf ety ≤ (seqElem cfg s k ety v).cap) ∧
@@ -347,7 +474,7 @@ theorem C19_dealloc_frees_iff_heap (cfg : Config) (hs : cfg.Sound = true) (s : S
 
 /-- the same for an embedded object handed out by a container: always refused (never released) -/
 theorem C19_dealloc_embedded_refused (cfg : Config) (hs : cfg.Sound = true) (e : Elem) (h : e.hdr.alloc = cfg.cData)
-    (hv : e.val ≠ .strFreed) : deallocElem cfg e = .raised "ResourceError" := by
+    (hv : e.val.dangling = false) : deallocElem cfg e = .raised "ResourceError" := by
   have F := facts_of_sound hs
   simp [deallocElem, h, F.refData, hv]
 
@@ -580,10 +707,16 @@ theorem C19_del_releases_registered (cfg : Config) (hs : cfg.Sound = true) (ops 
       rw [e] at hg1; rw [hg1] at hg2; cases hg2; rw [hl1] at hl2; cases hl2
 
 /-- **a refused release changes nothing at all, for all histories**: in every reachable state, `dealloc`, `dealloc_raw`,
-    `dealloc_root`, `del` or `del_root` applied to a live object whose class is static, stack or data returns the very same
-    state (objects, registry, release log) — whatever the object is. -/
+    `dealloc_root`, `del`, `del_root`, `del_raw` or `destruct` applied to a live object whose class is static, stack or data
+    returns the very same state (objects, registry, release log) — whatever the object is, with one exclusion that is
+    exactly the whole-object territory of known finding KF-C19-delraw-embedded: `del_raw` / `destruct` of an object for
+    which `delrawTerritory` holds (a Box that points to something; a container; a String or Tuple of class `data`).
+    So `del_raw` and `destruct` of a stack or static Int, Ref, String, Tuple, empty Box, of a Type object … are covered:
+    the destructor either does not exist or is the guarded `String_Del` / `Tuple_Del`, which refuses first.
+    (`destruct` of a stack Box that points to something is not a refusal at all: it is the documented way to release what
+    the Box holds — `C19_destruct_stack_box_releases_pointee`.) -/
 theorem C19_step_release_refused_unchanged (cfg : Config) (hs : cfg.Sound = true) (ops : List Op) (id : Nat) (o : Obj)
-    (f : FreeOp) (hf : f ≠ .delRaw ∧ f ≠ .destruct)
+    (f : FreeOp) (hf : f = .delRaw ∨ f = .destruct → delrawTerritory cfg o = false)
     (hget : (run cfg St.init ops).get id = some o) (hlive : o.live = true)
     (hcls : o.hdr.alloc = cfg.cStatic ∨ o.hdr.alloc = cfg.cStack ∨ o.hdr.alloc = cfg.cData) :
     (stepFree cfg (run cfg St.init ops) f (.obj id)).1 = run cfg St.init ops := by
@@ -603,14 +736,141 @@ theorem C19_step_release_refused_unchanged (cfg : Config) (hs : cfg.Sound = true
       obtain ⟨p, hp, hpid⟩ := isReg_true hr
       obtain ⟨o1, hget1, hheap, _⟩ := hw.reg p hp
       rw [hpid, hget] at hget1; cases hget1; exact absurd hheap hnh
-  have hd := (C19_dealloc_frees_iff_heap cfg hs s id o).2 hcls
+  have hd := dealloc_refused F s id o hcls
   have hc : some id ∉ s.pending := hnp id
   unfold stepFree
-  simp only [Target.id, hget, hlive, Bool.not_true, Bool.false_eq_true, if_false, hnr, Bool.and_false]
-  repeat' split
-  all_goals first
-    | rfl
-    | (cases f <;> simp_all [freeObj, F.delViaCollector, gcRem])
+  simp only [Target.id, hget, hlive, Bool.not_true, Bool.false_eq_true, if_false]
+  split
+  · rfl
+  · show (freeObj cfg s f id o).1 = s
+    cases f with
+    | dealloc => simp only [freeObj, hd]
+    | deallocRaw => simp only [freeObj, hd]
+    | deallocRoot => simp only [freeObj, hd]
+    | del => simp [freeObj, F.delViaCollector, gcRem, hnr, hc]
+    | delRoot => simp [freeObj, F.delViaCollector, gcRem, hnr, hc]
+    | delRaw =>
+      obtain ⟨e, he⟩ := freeObj_delRaw_refused F hw hget hlive hcls (hf (Or.inl rfl))
+      rw [he]
+    | destruct =>
+      simp only [freeObj]
+      exact destructObj_unchanged F hw hget hcls (hf (Or.inr rfl))
+
+/-- … and `del_raw` raises there: ResourceError from `dealloc`, ValueError from the guarded destructor of a stack or static
+    String / Tuple (FormatError for the `Terminal` object, see `C19_dealloc_frees_iff_heap`) -/
+theorem C19_step_delraw_refused_raises (cfg : Config) (hs : cfg.Sound = true) (ops : List Op) (id : Nat) (o : Obj)
+    (ht : delrawTerritory cfg o = false)
+    (hget : (run cfg St.init ops).get id = some o) (hlive : o.live = true)
+    (hcls : o.hdr.alloc = cfg.cStatic ∨ o.hdr.alloc = cfg.cStack ∨ o.hdr.alloc = cfg.cData) :
+    ∃ e, freeObj cfg (run cfg St.init ops) .delRaw id o = (run cfg St.init ops, .raised e) :=
+  freeObj_delRaw_refused (facts_of_sound hs) (C19_reachable_wf cfg hs ops) hget hlive hcls ht
+
+/-- name and outcome of an executed operation (for the decidable examples below) -/
+def Obs.didOut : Obs → Option (String × Outcome)
+  | .did n out _ => some (n, out)
+  | _ => none
+
+/-- the hypotheses are met by reachable stack objects, with `f = del_raw` and `f = destruct`: a stack Int (no destructor:
+    `dealloc` refuses, ResourceError), a stack String and a stack Tuple (guarded destructor: ValueError), an empty stack Box;
+    the state after each call is the state before it -/
+example :
+    let ops : List Op := [.make 0 .stack (.int 7), .make 1 .stack (.str "x"), .make 2 .stack (.tuple [0, 1]), .make 3 .stack (.box none)]
+    let s := run Config.current St.init ops
+    (∀ id ∈ [0, 1, 2, 3], (s.get id).map (fun o => (o.live, o.hdr.alloc, delrawTerritory Config.current o)) =
+        some (true, Config.current.cStack, false)) ∧
+    (stepFree Config.current s .delRaw (.obj 0)).2.didOut = some ("del_raw", .raised "ResourceError") ∧
+    (stepFree Config.current s .delRaw (.obj 1)).2.didOut = some ("del_raw", .raised "ValueError") ∧
+    (stepFree Config.current s .delRaw (.obj 2)).2.didOut = some ("del_raw", .raised "ValueError") ∧
+    (stepFree Config.current s .delRaw (.obj 3)).2.didOut = some ("del_raw", .raised "ResourceError") ∧
+    (stepFree Config.current s .destruct (.obj 1)).2.didOut = some ("destruct", .raised "ValueError") ∧
+    (stepFree Config.current s .destruct (.obj 0)).2.didOut = some ("destruct", .ok) := by
+  decide
+
+/-- **the excluded region is not empty** (KF-C19-delraw-embedded, stack Box): `del_raw($(Box, new(Int, 5)))` raises
+    ResourceError — after Box_Del deleted the Int and cleared the Box: the state changed although the call was refused -/
+theorem C19_step_delraw_stack_box_refuted :
+    let ops : List Op := [.make 0 .new (.int 5), .make 1 .stack (.box (some 0))]
+    let s := run Config.current St.init ops
+    (s.get 1).map (fun o => (o.live, o.hdr.alloc, delrawTerritory Config.current o)) = some (true, Config.current.cStack, true) ∧
+    (stepFree Config.current s .delRaw (.obj 1)).2.didOut = some ("del_raw", .raised "ResourceError") ∧
+    (stepFree Config.current s .delRaw (.obj 1)).1.freed = [0] ∧
+    ((stepFree Config.current s .delRaw (.obj 1)).1.get 1).map (·.body) = some (.box none) := by
+  decide
+
+/-- **`destruct` of a stack Box is the documented release of what it holds** (src/Pointer.c, example "Lifetimes";
+    tests/test.c `test_box_assign`): in every reachable state it raises nothing; a concrete history: the registered pointee
+    is released exactly once, the Box is cleared, its header and liveness are untouched. -/
+theorem C19_destruct_stack_box_releases_pointee :
+    let ops : List Op := [.make 0 .new (.str "s"), .make 1 .stack (.box (some 0)), .free .destruct (.obj 1), .free .destruct (.obj 1)]
+    let s := run Config.current St.init ops
+    s.freed = [0] ∧ s.reg = [] ∧ (s.get 1).map (fun o => (o.body, o.live, o.hdr.alloc)) = some (.box none, true, Config.current.cStack) := by
+  decide
+
+/-- **the same for an embedded object, at step level and for all histories**: a freeing operation applied to an element,
+    key or value of a live container returns the very same state — for `del_raw` / `destruct` provided the element's type has
+    no destructor (Int, run-time structs); Strings, Tuples and Arrays are the embedded territory of KF-C19-delraw-embedded. -/
+theorem C19_step_release_refused_unchanged_elem (cfg : Config) (hs : cfg.Sound = true) (ops : List Op) (t : Target) (o : Obj)
+    (e : Elem) (f : FreeOp) (hf : f = .delRaw ∨ f = .destruct → e.val.hasDestructor = false)
+    (hget : (run cfg St.init ops).get t.id = some o) (hlive : o.live = true) (he : o.body.elemAt t = some e)
+    (hnd : e.val.dangling = false) :
+    (stepFree cfg (run cfg St.init ops) f t).1 = run cfg St.init ops ∧
+    (f ≠ .del → f ≠ .delRoot → f ≠ .destruct → (stepFree cfg (run cfg St.init ops) f t).2 = .did f.name (.raised "ResourceError") t) := by
+  have F := facts_of_sound hs
+  have hw : WF cfg (run cfg St.init ops) := C19_reachable_wf cfg hs ops
+  generalize run cfg St.init ops = s at *
+  have hdata : e.hdr.alloc = cfg.cData := by
+    have hb : BodyOK cfg o.body := bodyOK_of_get hw hget
+    cases hbody : o.body with
+    | seq k ety es =>
+      rw [hbody] at he hb
+      cases t <;> simp only [Body.elemAt] at he <;> try cases he
+      rw [hb e (List.mem_of_getElem? he)]; rfl
+    | map k kty vty ents =>
+      rw [hbody] at he hb
+      cases t <;> simp only [Body.elemAt] at he <;> try cases he
+      · rename_i id i
+        cases hp : ents[i]? with
+        | none => simp [hp] at he
+        | some p => simp only [hp, Option.map_some, Option.some.injEq] at he; rw [← he, (hb p (List.mem_of_getElem? hp)).1]; rfl
+      · rename_i id i
+        cases hp : ents[i]? with
+        | none => simp [hp] at he
+        | some p => simp only [hp, Option.map_some, Option.some.injEq] at he; rw [← he, (hb p (List.mem_of_getElem? hp)).2]; rfl
+    | _ => rw [hbody] at he; cases t <;> simp [Body.elemAt] at he
+  have hnh : (e.hdr.alloc != cfg.cHeap) = true := by
+    rw [hdata]; simp only [bne_iff_ne, ne_eq]; exact fun h => F.ne_heap_data h.symm
+  have hde : deallocElem cfg e = .raised "ResourceError" := by simp [deallocElem, hdata, F.refData, hnd]
+  -- the element the target designates, and the step
+  have helem : s.elemOf t = some e := by
+    unfold St.elemOf
+    cases t with
+    | obj id => simp [Body.elemAt] at he
+    | elem id i => simp only [Target.id] at hget ⊢; simp [hget, hlive, he]
+    | key id i => simp only [Target.id] at hget ⊢; simp [hget, hlive, he]
+    | val id i => simp only [Target.id] at hget ⊢; simp [hget, hlive, he]
+  have hfe : freeElem cfg f e = (e, if f = .del ∨ f = .delRoot ∨ f = .destruct then .ok else .raised "ResourceError") := by
+    cases f with
+    | dealloc => simp [freeElem, hde]
+    | deallocRaw => simp [freeElem, hde]
+    | deallocRoot => simp [freeElem, hde]
+    | del => simp [freeElem, F.delViaCollector]
+    | delRoot => simp [freeElem, F.delViaCollector]
+    | destruct => simp [freeElem, destructElem_noDtor (hf (Or.inr rfl))]
+    | delRaw => simp [freeElem, destructElem_noDtor (hf (Or.inl rfl)), hde]
+  have hstep : stepFree cfg s f t =
+      (s.updBody t.id (fun b => b.setElemAt t (freeElem cfg f e).1), .did f.name (freeElem cfg f e).2 t) := by
+    unfold stepFree
+    cases t with
+    | obj id => simp [Body.elemAt] at he
+    | elem id i => simp only [Target.id] at hget ⊢; simp [hget, hlive, helem]
+    | key id i => simp only [Target.id] at hget ⊢; simp [hget, hlive, helem]
+    | val id i => simp only [Target.id] at hget ⊢; simp [hget, hlive, helem]
+  rw [hstep, hfe]
+  constructor
+  · show s.updBody t.id (fun b => b.setElemAt t e) = s
+    exact updBody_self hw hget _ (setElemAt_self he)
+  · intro h1 h2 h3
+    simp [h1, h2, h3]
 
 /-- **a refused in-place operation changes nothing, for all histories**: in every reachable state a reallocating
     operation (everything but String's in-place `rem`) applied to a live stack or static String or Tuple raises, and the
@@ -683,37 +943,108 @@ theorem C19_step_inplace_refused_unchanged (cfg : Config) (hs : cfg.Sound = true
 /-! ## E. known findings on this tree (the model, which mirrors the code, violates the full statement) -/
 
 /-- The full statement "an attempt to free a container-embedded object raises and leaves it intact", for `del_raw`:
-    `∀ e` embedded, `freeElem cfg .delRaw e = (e, .raised "ResourceError")`. -/
+    `∀ e` embedded (and not already dangling), `freeElem cfg .delRaw e = (e, .raised "ResourceError")`. -/
 def C19_delraw_embedded_statement (cfg : Config) : Prop :=
-  ∀ e : Elem, e.hdr.alloc = cfg.cData → e.val ≠ .strFreed → freeElem cfg .delRaw e = (e, .raised "ResourceError")
+  ∀ e : Elem, e.hdr.alloc = cfg.cData → e.val.dangling = false → freeElem cfg .delRaw e = (e, .raised "ResourceError")
+
+/-- … and for whole objects: `del_raw` of a live stack, static or data-class object raises and returns the very same state -/
+def C19_delraw_nonheap_statement (cfg : Config) : Prop :=
+  ∀ (ops : List Op) (id : Nat) (o : Obj), (run cfg St.init ops).get id = some o → o.live = true →
+    (o.hdr.alloc = cfg.cStatic ∨ o.hdr.alloc = cfg.cStack ∨ o.hdr.alloc = cfg.cData) →
+    ∃ e, freeObj cfg (run cfg St.init ops) .delRaw id o = (run cfg St.init ops, .raised e)
+
+/-- `p = new(Int, $I(5)); b = $(Box, p)` -/
+def boxWitnessOps : List Op := [.make 0 .new (.int 5), .make 1 .stack (.box (some 0))]
+def boxWitnessObj : Obj :=
+  { hdr := headerInit Config.current .box Config.current.bStack, cap := 8, body := .box (some 0), live := true }
 
 /-- **refuted on this tree** (KF-C19-delraw-embedded): `del_by` runs `dealloc(destruct(self))`, so the destructor of an
-    embedded String frees its characters before `dealloc` looks at the class; `dealloc` then formats the freed object
-    into its message. Witness: the element of `new(Array, String, "ab")`. -/
-theorem C19_delraw_embedded_refuted : ¬ C19_delraw_embedded_statement Config.current := by
-  intro h
-  have := h (seqElem Config.current St.init .array .string (.str "ab")) (by decide) (by decide)
-  revert this
-  decide
+    embedded or stack object runs before `dealloc` looks at the class.  Four witnesses:
+    the String element of `new(Array, String, "ab")` — String_Del frees the characters, `dealloc` formats them into its message
+    (use of the released block);
+    the Tuple element of `new(Array, Tuple, tuple($I(1), $I(2)))` — Tuple_Del frees `items`, Tuple_Show reads them;
+    the Array element of `new(Array, Array, new(Array, Int, 7, 8))` — Array_Del frees the backing store, Array_Show reads it;
+    and (second statement) `del_raw($(Box, new(Int, 5)))` — Box_Del deletes the Int and clears the Box, then ResourceError. -/
+theorem C19_delraw_embedded_refuted :
+    ¬ C19_delraw_embedded_statement Config.current ∧ ¬ C19_delraw_nonheap_statement Config.current ∧
+    (let s := run Config.current St.init [.make 0 .stack (.int 1), .make 1 .stack (.int 2)]
+     freeElem Config.current .delRaw (seqElem Config.current St.init .array .string (.str "ab")) =
+        ({ seqElem Config.current St.init .array .string (.str "ab") with val := .strFreed }, .ub) ∧
+     freeElem Config.current .delRaw (seqElem Config.current s .array .tuple (.tup [0, 1])) =
+        ({ seqElem Config.current s .array .tuple (.tup [0, 1]) with val := .tupFreed }, .ub) ∧
+     freeElem Config.current .delRaw (seqElem Config.current St.init .array .array (.arr [7, 8])) =
+        ({ seqElem Config.current St.init .array .array (.arr [7, 8]) with val := .arrFreed 2 }, .ub)) := by
+  refine ⟨?_, ?_, by decide⟩
+  · intro h
+    have := h (seqElem Config.current St.init .array .tuple (.tup [])) (by decide) (by decide)
+    revert this
+    decide
+  · intro h
+    obtain ⟨e, he⟩ := h boxWitnessOps 1 boxWitnessObj (by decide) rfl (by decide)
+    have h1 : (freeObj Config.current (run Config.current St.init boxWitnessOps) .delRaw 1 boxWitnessObj).1.freed = [0] := by decide
+    have h2 : (run Config.current St.init boxWitnessOps).freed = [] := by decide
+    rw [he] at h1
+    simp only [h2] at h1
+    cases h1
+
+/-- stack Ints, an Array of Tuples, a List of Arrays, a Table with Tuple values; `dealloc` / `del` on their elements -/
+def embWitnessOps : List Op :=
+  [.make 0 .stack (.int 1), .make 1 .stack (.int 2), .make 2 .newRaw (.seq .array .tuple [.tup [0, 1], .tup []]),
+   .make 3 .new (.seq .list .array [.arr [7, 8]]), .make 4 .new (.map .table .int .tuple [(.int 3, .tup [1])]),
+   .free .dealloc (.elem 2 0), .free .del (.elem 3 0), .free .deallocRaw (.val 4 0), .free .delRoot (.elem 2 1)]
+
+/-- the witnesses are reachable: the model builds an Array of Tuples, a List of Arrays and a Table of Tuples, hands out their
+    elements with the declared type and class `data`, and `dealloc` / `del` of those elements (outside the territory) leave
+    everything as it is -/
+example :
+    (run Config.current St.init embWitnessOps).iterate Config.current 2 =
+      some [some (some .tuple, Config.current.cData), some (some .tuple, Config.current.cData)] ∧
+    (run Config.current St.init embWitnessOps).iterate Config.current 3 = some [some (some .array, Config.current.cData)] ∧
+    (run Config.current St.init embWitnessOps).mapValues Config.current 4 = some [some (some .tuple, Config.current.cData)] ∧
+    ((run Config.current St.init embWitnessOps).elemOf (.elem 2 0)).map (·.val) = some (.tup [0, 1]) ∧
+    ((run Config.current St.init embWitnessOps).elemOf (.elem 3 0)).map (·.val) = some (.arr [7, 8]) ∧
+    (run Config.current St.init embWitnessOps).freed = [] := by
+  refine ⟨by decide, by decide, by decide, by decide, by decide, by decide⟩
 
 /-- what is proved instead: every freeing operation leaves an embedded object exactly as it is, and never releases it,
-    unless it runs the destructor of an embedded String (`del_raw`, `destruct`) -/
+    unless it runs a destructor that exists — `del_raw` / `destruct` of an element whose type has one (String, Tuple, Array:
+    `Scalar.hasDestructor`; List, Table, Tree, Box and File elements are outside the model's universe and, having unguarded
+    destructors as well, inside the finding's). -/
 theorem C19_embedded_intact_partial (cfg : Config) (hs : cfg.Sound = true) (f : FreeOp) (e : Elem)
-    (h : (f ≠ .delRaw ∧ f ≠ .destruct) ∨ (∀ t, e.val ≠ .str t)) : (freeElem cfg f e).1 = e := by
+    (h : (f ≠ .delRaw ∧ f ≠ .destruct) ∨ e.val.hasDestructor = false) : (freeElem cfg f e).1 = e := by
   have F := facts_of_sound hs
-  have hd : (∀ t, e.val ≠ .str t) → destructElem cfg e = (e, .ok) := by
-    intro hv; unfold destructElem; split
-    · rename_i t ht; exact absurd ht (hv t)
-    · rfl
   cases f <;> simp only [freeElem, F.delViaCollector, if_true]
   case delRaw =>
     rcases h with h | h
     · exact absurd rfl h.1
-    · rw [hd h]
+    · rw [destructElem_noDtor h]; split <;> rfl
   case destruct =>
     rcases h with h | h
     · exact absurd rfl h.2
-    · rw [hd h]
+    · rw [destructElem_noDtor h]
+
+/-- **the proposed repair closes the finding**: if `del_by` refuses an object whose class is not `heap` before it calls the
+    destructor (`Config.delRawClassFirst`; the translator reads it from `del_by`, it is `false` on this tree), both full
+    statements hold for every `Sound` configuration — every embedded object and every stack, static or data-class object
+    is returned untouched with ResourceError (FormatError for `Terminal`), whatever its type. -/
+theorem C19_delraw_repair_sound (cfg : Config) (hs : cfg.Sound = true) (hcf : cfg.delRawClassFirst = true) :
+    C19_delraw_embedded_statement cfg ∧ C19_delraw_nonheap_statement cfg := by
+  have F := facts_of_sound hs
+  constructor
+  · intro e hd hnd
+    have hnh : (e.hdr.alloc != cfg.cHeap) = true := by
+      rw [hd]; simp only [bne_iff_ne, ne_eq]; exact fun h => F.ne_heap_data h.symm
+    have h1 : freeElem cfg .delRaw e = (e, deallocElem cfg e) := by
+      simp only [freeElem, hcf, hnh, Bool.and_self, if_true]
+    rw [h1]
+    simp [deallocElem, hd, F.refData, hnd]
+  · intro ops id o _ _ hcls
+    exact ⟨_, freeObj_delRaw_classFirst F hcf _ id o hcls⟩
+
+/-- the configuration read from the source does not have the class check first (so the `_refuted` theorem above is about the
+    code that exists), and a `Sound` configuration with the check exists: the current one with that one field flipped -/
+example : Config.current.delRawClassFirst = false ∧
+    ({ Config.current with delRawClassFirst := true }).Sound = true := by decide
 
 /-- **refuted on this tree** (KF-C19-tree-misaligned-header): `Tree_Alloc` places the value's header at
     `3*sizeof(var) + sizeof(struct Header) + size(ktype)` without rounding, so a 12-byte key type puts it at offset 60. -/
